@@ -2,6 +2,7 @@
 //! Everything is `#[cfg(kani)]`; the native build of this crate is empty except for
 //! replay support (`--cfg verif_native`, used by `cargo kani playback`).
 #![allow(dead_code, unused_imports, clippy::all)]
+#![cfg_attr(kani, feature(allocator_api))]
 
 #[cfg(kani)]
 pub mod stubs;
@@ -9,7 +10,13 @@ pub mod stubs;
 pub mod util;
 
 #[cfg(kani)]
+pub mod c01;
+#[cfg(kani)]
+pub mod probe;
+#[cfg(kani)]
 pub mod c08;
+#[cfg(kani)]
+pub mod c11;
 #[cfg(kani)]
 pub mod c18;
 
